@@ -222,14 +222,18 @@ static std::basic_string<C> through_stream(const std::basic_string<C> &units)
 }
 
 // ------------------------------------------------------------------ results of one format call through every sink
-enum { S_FORMAT, S_FORMAT_V, S_UDL, S_RECORDER, S_FILE, S_STDOUT, S_OSTREAM, S_WSTREAM, S_U16STREAM, S_U32STREAM, S_LATIN1, S_COUNT };
+enum { S_FORMAT, S_FORMAT_V, S_UDL, S_RECORDER, S_FILE, S_STDOUT, S_OSTREAM, S_WSTREAM, S_U16STREAM, S_U32STREAM, S_LATIN1,
+       S_FORMAT_SUBST, S_FORMAT_ASSUME, S_FILE_ERRFLAG, S_OSTREAM_STATE, S_WSTREAM_STATE, S_COUNT };
 static const char *SINK[S_COUNT] = {"format",          "format(validation)",  "_stfmt",           "custom-format_writer",
                                     "printf(FILE*)",   "printf(stdout)",      "writef<char>",     "writef<wchar_t>",
-                                    "writef<char16_t>", "writef<char32_t>",   "format_latin_1"};
+                                    "writef<char16_t>", "writef<char32_t>",   "format_latin_1",
+                                    "format(substitute_invalid)", "format(assume_valid)", "printf(FILE* with a stale error indicator)",
+                                    "writef<char>(stream with pending width/fill/flags)", "writef<wchar_t>(stream with pending width/fill/flags)"};
 struct Results {
     vf::Outcome o[S_COUNT];
     std::string bytes[S_COUNT];  // narrow results
     std::u32string w32[2];       // wchar_t, char32_t
+    std::u32string w32_state;    // wchar_t stream that carried formatting state
     std::u16string w16;
     int state[4] = {0, 0, 0, 0};  // rdstate of the four ostreams
     std::vector<Chunk> chunks;
@@ -254,8 +258,52 @@ static void run_sinks(const std::string &fmt_text, Results &r, const A &...a)
             std::ostringstream os;
             r.o[S_OSTREAM] = vf::guard([&] { ST::writef(os, f, a...); });
             r.bytes[S_OSTREAM] = os.str();
+            r.o[S_FORMAT_SUBST] = vf::guard([&] {
+                ST::string s = ST::format(ST::substitute_invalid, f, a...);
+                r.bytes[S_FORMAT_SUBST].assign(s.c_str(), s.size());
+            });
+            r.o[S_FORMAT_ASSUME] = vf::guard([&] {
+                ST::string s = ST::format(ST::assume_valid, f, a...);
+                r.bytes[S_FORMAT_ASSUME].assign(s.c_str(), s.size());
+            });
         }
         return;
+    }
+    r.o[S_FORMAT_SUBST] = vf::guard([&] {
+        ST::string s = ST::format(ST::substitute_invalid, f, a...);
+        r.bytes[S_FORMAT_SUBST].assign(s.c_str(), s.size());
+    });
+    r.o[S_FORMAT_ASSUME] = vf::guard([&] {
+        ST::string s = ST::format(ST::assume_valid, f, a...);
+        r.bytes[S_FORMAT_ASSUME].assign(s.c_str(), s.size());
+    });
+    {
+        // a FILE* whose error indicator is set from an earlier, unrelated operation (a read attempt on a write-only stream)
+        char *mbuf = nullptr;
+        size_t msize = 0;
+        FILE *mf = open_memstream(&mbuf, &msize);
+        if (!mf) _exit(2);
+        (void)fgetc(mf);
+        r.o[S_FILE_ERRFLAG] = vf::guard([&] { ST::printf(mf, f, a...); });
+        fclose(mf);
+        r.bytes[S_FILE_ERRFLAG].assign(mbuf, msize);
+        free(mbuf);
+    }
+    {
+        // streams that carry formatting state from earlier use: writef writes its bytes, not formatted fields
+        std::ostringstream os;
+        os.width(7);
+        os.fill('.');
+        os.setf(std::ios::left | std::ios::hex | std::ios::showbase | std::ios::uppercase | std::ios::showpos);
+        os.precision(2);
+        r.o[S_OSTREAM_STATE] = vf::guard([&] { ST::writef(os, f, a...); });
+        r.bytes[S_OSTREAM_STATE] = os.str();
+        std::wostringstream wos;
+        wos.width(5);
+        wos.fill(L'#');
+        wos.setf(std::ios::right | std::ios::oct | std::ios::showbase);
+        r.o[S_WSTREAM_STATE] = vf::guard([&] { ST::writef(wos, f, a...); });
+        for (wchar_t ch : wos.str()) r.w32_state += (char32_t)ch;
     }
     r.o[S_FORMAT_V] = vf::guard([&] {
         ST::string s = ST::format(ST::check_validity, f, a...);
@@ -340,6 +388,26 @@ static void compare(Ctx &c, const std::string &fmt, const Results &r)
 {
     if (!r.o[S_FORMAT].ok()) {
         vf::count_dyn(std::string("out:format-rejected:") + vf::outkind_name(r.o[S_FORMAT].kind));
+        if (r.o[S_FORMAT].kind == vf::EX_UNICODE && r.o[S_OSTREAM].ok()) {
+            // the lenient modes: assume_valid hands the bytes over as they are, substitute_invalid repairs them like the
+            // string constructor does in that mode (C02 decides what that repair is)
+            const std::string &raw = r.bytes[S_OSTREAM];
+            VF_ADD("validated", 2);
+            if (!r.o[S_FORMAT_ASSUME].ok() || r.bytes[S_FORMAT_ASSUME] != raw)
+                fail(c, "format(assume_valid):differs-from-the-bytes-the-call-produces",
+                     strf("bytes %s: format(assume_valid) %s", vf::vis(raw.substr(0, 60)).c_str(),
+                          r.o[S_FORMAT_ASSUME].ok() ? vf::vis(r.bytes[S_FORMAT_ASSUME].substr(0, 60)).c_str() : r.o[S_FORMAT_ASSUME].str().c_str()));
+            std::string repaired;
+            vf::Outcome ro = vf::guard([&] {
+                ST::string rs(raw.data(), raw.size(), ST::substitute_invalid);
+                repaired.assign(rs.c_str(), rs.size());
+            });
+            if (ro.ok() && (!r.o[S_FORMAT_SUBST].ok() || r.bytes[S_FORMAT_SUBST] != repaired))
+                fail(c, "format(substitute_invalid):differs-from-the-repaired-bytes",
+                     strf("bytes %s: format(substitute_invalid) %s, ST::string(bytes, substitute_invalid) is %s", vf::vis(raw.substr(0, 60)).c_str(),
+                          r.o[S_FORMAT_SUBST].ok() ? vf::vis(r.bytes[S_FORMAT_SUBST].substr(0, 60)).c_str() : r.o[S_FORMAT_SUBST].str().c_str(),
+                          vf::vis(repaired.substr(0, 60)).c_str()));
+        }
         std::u32string tmp32;
         if (r.o[S_FORMAT].kind == vf::EX_UNICODE && r.o[S_OSTREAM].ok() && ref17::dec8(r.bytes[S_OSTREAM], tmp32)) {
             VF_COUNT("validated");
@@ -366,7 +434,7 @@ static void compare(Ctx &c, const std::string &fmt, const Results &r)
     vf::count_dyn(std::string("out:format-accepted:") + cls);
 
     // narrow sinks: byte-identical
-    static const int NARROW[] = {S_FORMAT_V, S_UDL, S_RECORDER, S_FILE, S_STDOUT, S_OSTREAM};
+    static const int NARROW[] = {S_FORMAT_V, S_UDL, S_RECORDER, S_FILE, S_STDOUT, S_OSTREAM, S_FORMAT_SUBST, S_FORMAT_ASSUME, S_FILE_ERRFLAG, S_OSTREAM_STATE};
     for (int s : NARROW) {
         VF_COUNT("validated");
         if (!r.o[s].ok())
@@ -420,6 +488,13 @@ static void compare(Ctx &c, const std::string &fmt, const Results &r)
         else if (r.state[1 + k] != 0)
             fail(c, strf("%s:stream-state:%s", nm, cls), strf("rdstate=%d after writef", r.state[1 + k]));
         vf::count_dyn(same ? "out:wide:equal" : "out:wide:differs");
+    }
+    if (!known_class) {
+        VF_COUNT("validated");
+        if (!r.o[S_WSTREAM_STATE].ok() || r.w32_state != want32)
+            fail(c, strf("%s:differs:%s", SINK[S_WSTREAM_STATE], cls),
+                 strf("ST::format %s => expected units [%s], a wchar_t stream with pending width 5 / fill '#' / oct got [%s]%s", vf::vis(R).c_str(),
+                      u32_str(want32).c_str(), u32_str(r.w32_state).c_str(), r.o[S_WSTREAM_STATE].ok() ? "" : (" ; " + r.o[S_WSTREAM_STATE].str()).c_str()));
     }
     (void)fmt;
 }
